@@ -470,7 +470,7 @@ def main(tier: str, seed: int) -> int:
                                                                                           "config_index": ci}})
         chk.add_case({"topo": net.topo, "zones": [net.zoneA, net.zoneB], "up": st["up"], "lists": str(st["lists"])[:400]})
     res = tlc.validate("BlockingTrace", walk_traces, chunk=300)
-    common.judge_traces(chk, "Blocking", walk_traces, res, sig_fn)
+    common.judge_traces(chk, "Blocking", walk_traces, res, sig_fn, selftest="BlockingTrace")
     # (ii) which configurations are blocked?  Ask TLC: a probe trace [Emit, MRecv, ..., BRecv(acc=TRUE)] is rejected
     # by clause BlockedNeverArrives exactly when the model's structural predicate Blocked holds.
     probes = []
